@@ -62,12 +62,13 @@ class OptSet:
 DEFAULT = OptSet("default")
 ALL_ON = OptSet("allon", emit_rule_reference=True, box_only_if_needed=True, no_warnings=True, do_not_emit_span=True)
 RAW = OptSet("raw", pest_optimizer=False)
+BOX_ONLY = OptSet("boxonly", box_only_if_needed=True)
 
 
 def option_sets(tier, seed):
     if tier == "quick":
         rnd = random.Random(seed ^ 0xC20)
-        sets = [DEFAULT, ALL_ON, RAW]
+        sets = [DEFAULT, ALL_ON, RAW, BOX_ONLY]
         seen = {(s.box, s.ref, s.nospan, s.opt) for s in sets}
         k = 0
         while k < 2:
@@ -209,13 +210,106 @@ rst = { (PUSH("a") ~ "b")? ~ (PUSH("c") | "a") ~ (PUSH("a") ~ "z")* }
     return gs
 
 
+CYCLE_EDGES = {"seq": "{n}", "choice": "({n} | \"!\")", "opt": "{n}?", "rep": "{n}*"}
+CYCLE_ORDERS = ("topdown", "bottomup", "rotated", "shuffled")
+CYCLE_SURROUND = ("bare", "trailing", "leading", "both")
+
+
+def cycle_grammar(gid, length, order, surround, edge, rnd):
+    """One reference cycle c0 -> c1 -> ... -> c{length-1} -> c0.  Every rule consumes its own letter first (no left
+    recursion); the edges run through the container `edge` (sequence / choice / optional / repetition) except the
+    closing one of a pure-sequence cycle, which is optional so that the language is not empty.  `order` is the
+    order of the definitions, `surround` adds rules outside the cycle before / after it: `leading` a rule that uses
+    the cycle, `trailing` a leaf that gains nothing in any round of the reachability analysis."""
+    names = [f"c{i}" for i in range(length)]
+    rules = []
+    for i, n in enumerate(names):
+        nxt = names[(i + 1) % length]
+        form = CYCLE_EDGES[edge].format(n=nxt)
+        if edge == "seq" and i == length - 1:
+            form = nxt + "?"
+        rules.append(f'{n} = {{ "{chr(97 + i)}" ~ {form} }}')
+    if order == "bottomup":
+        rules.reverse()
+    elif order == "rotated":
+        k = max(1, length // 2)
+        rules = rules[k:] + rules[:k]
+    elif order == "shuffled":
+        rnd.shuffle(rules)
+    if surround in ("leading", "both"):
+        rules.insert(0, 'user = { "u" ~ c0 ~ "v"? }')
+    if surround in ("trailing", "both"):
+        rules.append('leaf = { "z" }')
+    return {"gid": gid, "text": "\n".join(rules) + "\n"}
+
+
+def interlock_grammar(gid, n1, n2, order, trailing, rnd):
+    """Two cycles p0 -> ... -> p{n1-1} -> p0 and p0 -> q1 -> ... -> q{n2-1} -> p0 that share the rule p0."""
+    rules = []
+    for i in range(n1):
+        nxt = f"p{(i + 1) % n1}"
+        extra = " ~ q1?" if i == 0 and n2 > 1 else (" ~ p0?" if i == 0 else "")
+        body = f'"{chr(97 + i)}" ~ ({nxt} | "!")' + extra
+        rules.append(f"p{i} = {{ {body} }}")
+    for j in range(1, n2):
+        nxt = f"q{j + 1}" if j + 1 < n2 else "p0"
+        rules.append(f'q{j} = {{ "{chr(109 + j)}" ~ {nxt}? }}')
+    if order == "bottomup":
+        rules.reverse()
+    elif order == "shuffled":
+        rnd.shuffle(rules)
+    if trailing:
+        rules.append('leaf = { "z" }')
+    return {"gid": gid, "text": "\n".join(rules) + "\n"}
+
+
+def cycle_family(tier, seed):
+    """Systematic cycle shapes for the boxing analysis: cycle length 1..6 x definition order x rules outside the
+    cycle x container of the edges, plus two interlocking cycles sharing a rule.  quick: the container rotates with
+    the other parameters and the long top-down shapes get every container; thorough: the full product."""
+    rnd = random.Random(seed ^ 0xC7C1E)
+    gs, seen = [], set()
+
+    def add(g):
+        if g["text"] not in seen:
+            seen.add(g["text"])
+            gs.append(g)
+    kinds = list(CYCLE_EDGES)
+    for length in range(1, 7):
+        for oi, order in enumerate(CYCLE_ORDERS):
+            for si, surround in enumerate(CYCLE_SURROUND):
+                if tier == "quick":
+                    edges = {kinds[(length + oi + si) % 4]}
+                    if length >= 4 and order == "topdown" and surround in ("trailing", "both"):
+                        edges = set(kinds)
+                    if length == 2 and order == "bottomup" and surround == "trailing":
+                        edges = set(kinds)
+                else:
+                    edges = set(kinds)
+                for edge in kinds:
+                    if edge in edges:
+                        add(cycle_grammar(f"y_l{length}{order[:3]}_{surround[:4]}_{edge}", length, order, surround, edge, rnd))
+    for (n1, n2) in ((2, 3), (3, 4), (4, 4), (1, 4)):
+        for order in ("topdown", "bottomup", "shuffled"):
+            for trailing in (False, True):
+                add(interlock_grammar(f"y_x{n1}{n2}{order[:3]}_{'t' if trailing else 'n'}", n1, n2, order, trailing, rnd))
+    return gs
+
+
+def placeholder(g):
+    """Same gid and number of rules, trivially compiling: stands in for a grammar whose derive expansion does not
+    compile under some option set, so that the rest of that option set's crates keeps building."""
+    n = len(g["rules"])
+    return dict(g, text="".join(f'zz{i} = {{ "x" }}\n' for i in range(n)), rules=[(f"zz{i}", "normal") for i in range(n)], placeholder=True)
+
+
 def corpus_grammars(tier, seed):
     sysg = [g for g in corpus.systematic_grammars() if not g["gid"].startswith("s_kinds")]
     if tier != "quick":
         sysg += [g for g in corpus.systematic_grammars() if g["gid"] == "s_kinds_w"]
     nrand = 40 if tier == "quick" else 80
     nrec = 40 if tier == "quick" else 120
-    gs = recursive_grammars() + opt_probe_grammars() + sysg
+    gs = recursive_grammars() + cycle_family(tier, seed) + opt_probe_grammars() + sysg
     gs += corpus.random_grammars(seed, nrand)
     gs += [dict(g, gid=g["gid"].replace("g", "rec", 1)) for g in corpus.random_grammars(seed + 1, nrec, modes=("recursive",))]
     return gs
@@ -273,17 +367,19 @@ def strip_boxing(stream):
 # ---------------------------------------------------------------------------------------------
 # one workspace, every option set
 
-def emit_all(grammars, optsets, outdir, nbins, tag=""):
+def emit_all(grammars, optsets, outdir, nbins, tag="", exclude=None):
     """Writes `outdir` as ONE cargo workspace: per option set a directory `<set>/` produced by
     corpus.emit_workspace(attrs=set.attrs) whose crates are renamed `c20<tag><set>_b<k>` (binary names must
-    not collide with other suites in the shared target directory).  Returns {set name: (prefix, where)}."""
+    not collide with other suites in the shared target directory).  `exclude` = {set name: gids}: those grammars are
+    replaced by a placeholder in that option set only.  Returns {set name: (prefix, where)}."""
     os.makedirs(outdir, exist_ok=True)
     members = []
     res = {}
     keep = set()
     for s in optsets:
         sub = os.path.join(outdir, s.name)
-        where = corpus.emit_workspace(grammars, sub, nbins, attrs=s.attrs, with_pest=False)
+        ex = (exclude or {}).get(s.name, ())
+        where = corpus.emit_workspace([placeholder(g) if g["gid"] in ex else g for g in grammars], sub, nbins, attrs=s.attrs, with_pest=False)
         os.remove(os.path.join(sub, "Cargo.toml"))          # not a workspace of its own
         lock = os.path.join(sub, "Cargo.lock")
         if os.path.exists(lock):
@@ -315,6 +411,109 @@ def build_all(outdir):
     """cargo build of the whole workspace; on failure returns the crates that failed with rustc's message."""
     p = subprocess.run(["cargo", "build", "--offline", "-q", "--keep-going"], cwd=outdir, env=corpus.ENV, capture_output=True, text=True)
     return p.returncode, p.stderr
+
+
+def failing_crates(stderr):
+    """Names of the crates cargo could not compile."""
+    return sorted(set(re.findall(r"could not compile `(c20\w+_b\d+)`", stderr)))
+
+
+def error_blocks(stderr):
+    """rustc diagnostics of level error, one string each."""
+    parts = re.split(r"(?m)^(?=error|warning)", stderr)
+    return [b for b in parts if b.startswith("error") and not b.startswith("error: could not compile")]
+
+
+def blame(outdir, stderr):
+    """{(set name, gid): rustc text}: the grammar modules (`pub mod t_<gid>`) that contain a source line an error
+    diagnostic points at (`--> <set>/b<k>/src/main.rs:<line>`)."""
+    out = {}
+    cache = {}
+    for blk in error_blocks(stderr):
+        for sname, b, line in set(re.findall(r"--> (\w+)/b(\d+)/src/main\.rs:(\d+)", blk)):
+            key = (sname, b)
+            if key not in cache:
+                try:
+                    cache[key] = open(os.path.join(outdir, sname, f"b{b}", "src", "main.rs")).read().split("\n")
+                except OSError:
+                    cache[key] = []
+            gid = None
+            for l in cache[key][:int(line)]:
+                m = re.match(r"pub mod t_(\w+) \{", l)
+                if m:
+                    gid = m.group(1)
+            if gid:
+                out.setdefault((sname, gid), blk[:1500])
+    return out
+
+
+def check_subset(grammars, optset, tag=""):
+    """cargo check of one scratch crate holding `grammars` under `optset`; -> (compiles, stderr)."""
+    ws = os.path.join(corpus.BUILD, f"ws_opts_bisect_{tag}")
+    subprocess.call(["rm", "-rf", os.path.join(ws, "b0")])
+    corpus.emit_workspace(grammars, ws, 1, attrs=optset.attrs, with_pest=False)
+    toml = os.path.join(ws, "b0", "Cargo.toml")
+    open(toml, "w").write(re.sub(r'(?m)^name = "b0"$', f'name = "c20{tag}bisect_b0"', open(toml).read()))
+    p = subprocess.run(["cargo", "check", "--offline", "-q"], cwd=ws, env=corpus.ENV, capture_output=True, text=True)
+    return p.returncode == 0, p.stderr
+
+
+def bisect_guilty(grammars, optset, tag=""):
+    """Grammars whose own derive expansion does not compile under `optset`: [(grammar, rustc text)]."""
+    okk, err = check_subset(grammars, optset, tag)
+    if okk:
+        return []
+    if len(grammars) == 1:
+        return [(grammars[0], err)]
+    half = len(grammars) // 2
+    return bisect_guilty(grammars[:half], optset, tag) + bisect_guilty(grammars[half:], optset, tag)
+
+
+RULE_REF = re.compile(r"super :: super :: rules :: (?:r#)?(\w+) ::")
+
+
+def ref_edges(stream):
+    """{rule: rules its emitted `rule!` type expression mentions} read off a token stream (explicit references
+    only: the skip type `generics::Skipped<'i>` sits behind `AtomicRepeat`'s Vec)."""
+    res = {}
+    for chunk in stream.split(RULE_SPLIT)[1:]:
+        name = chunk.split(" ", 1)[0]
+        if name.startswith("r#"):
+            name = name[2:]
+        m = RULE_TAIL.search(chunk)
+        body = chunk[:m.start()] if m else chunk
+        res[name] = sorted(set(RULE_REF.findall(body)))
+    return res
+
+
+def unboxed_cycle(edges, boxed):
+    """A cycle of the reference graph that runs through un-boxed rules only, or None.
+    edges: {rule: [rules]}, boxed: {rule: "true"|"false"}."""
+    free = {r for r in edges if boxed.get(r) == "false"}
+    color = {}
+    stack = []
+
+    def dfs(r):
+        color[r] = 1
+        stack.append(r)
+        for q in edges.get(r, ()):
+            if q not in free:
+                continue
+            if color.get(q) == 1:
+                return stack[stack.index(q):] + [q]
+            if q not in color:
+                c = dfs(q)
+                if c:
+                    return c
+        stack.pop()
+        color[r] = 2
+        return None
+    for r in sorted(free):
+        if r not in color:
+            c = dfs(r)
+            if c:
+                return c
+    return None
 
 
 # ---------------------------------------------------------------------------------------------
